@@ -197,6 +197,7 @@ Definition decode_slc (maxNr : Z) (s : sl) : res desc * sl :=
   match read_size s with
   | (Ok (sfs, size), s) =>
       if exceeds sfs size maxNr then (Err, s)
+      else if size =? 0 then (Err, s)       (* "SLConfigDescriptor size 0 too small" (repo fix for C01-K77) *)
       else
         let '(cv, s) := sr_u8 s in
         let '(more, s) := if 1 <? size then sr_bytes (int_of_u64 (size - 1)) s else ([], s) in
